@@ -164,10 +164,12 @@ def execute(kind, op, script, prepare=None):
         _current[0] = None
         os.urandom = urandom
     invs, cur = [], None
+    raws, k = [], 0            # per primitive call: octets of the command, for the duplicate-write oracle
     for ev in air.log:
         if ev == "|":
             cur = []
             invs.append(cur)
+            raws.append(None)
         elif ev[0] == "!":
             if cur is not None:
                 cur.append(ev)
@@ -175,11 +177,14 @@ def execute(kind, op, script, prepare=None):
             if cur is None:          # exchange outside of every primitive call
                 cur = []
                 invs.append(cur)
+                raws.append(None)
             cur.append(ev)
+            raws[-1] = air.raw[k]
+            k += 1
     nret = tag._dep.n_retry_nak if family(kind) == "t4" else 0
     mem = bytes(sim.mem) if hasattr(sim, "mem") else (
         b"".join(bytes(sim.blocks[k]) for k in sorted(sim.blocks)) if hasattr(sim, "blocks") else bytes(sim.file))
-    return {"out": out, "invs": invs, "n": sum(1 for e in air.log if e != "|" and e[0] != "!"),
+    return {"out": out, "invs": invs, "invraw": raws, "n": sum(1 for e in air.log if e != "|" and e[0] != "!"),
             "applied": [a for a in sim.applied], "raw": list(air.raw), "mem": mem, "nret": nret, "sim": sim}
 
 
@@ -449,6 +454,16 @@ def oracle(ck, plan, script, r):
             ck.fail("command-resent-after-answer", what + "%s sent again after it was answered" % ex[0][0], replay)
         if len({e[0] for e in ex if e[0] not in ("nak",)}) > 1:
             ck.fail("primitive-mixed-commands", what + "one primitive call sent different commands %s" % ex, replay)
+    # a state-changing command that was answered is not sent again by the next call of the primitive
+    prev = None
+    for inv, raw in zip(r["invs"], r["invraw"]):
+        ex = [e for e in inv if e[0] != "!"]
+        if not ex:
+            continue
+        tok = ex[0][0]
+        if prev is not None and prev == raw and (tok[0] in "wW" or tok.startswith("up")):
+            ck.fail("write-repeated-after-answer", what + "write command %s was answered and is sent again" % tok, replay)
+        prev = raw if ex[-1][1] == "a" and not any(e[0] == "!" for e in inv) else None
     # a burst within the budget is invisible
     body = script.lstrip("a")
     if body and len(body) <= 2 and len(set(body)) == 1 and body[0] in "txpTXP" and len(script) - len(body) < plan.n:
